@@ -1034,7 +1034,7 @@ static void run_overlap_case(const desc_t *d, const ovl_t *o, long idx) {
             snprintf(what, sizeof what, "%s does not report overlapping objects: %s", d->name, obs); witness_ovl(d, o, idx, obs); report("C05", key, what, g_wit);
         }
     }
-    if (!want("C07")) return;
+    if (!want("C07") && !want("C06")) return;
     int exact = success && memcmp(D, wD, cmp_b) == 0;
     /* "report the overlap error with dest cleared": all dmax elements for ESOVRLP in the default build (C04's late-failure
        clause), first element zero otherwise */
@@ -1064,7 +1064,9 @@ static void run_overlap_case(const desc_t *d, const ovl_t *o, long idx) {
         snprintf(obs, sizeof obs, "ret=%s dmax=%zu destlen=%zu srclen=%zu slen=%zu delta=%ld read=[%ld,%ld) written=[%zu,%zu) fits=%d exact=%d cleared=%d",
                  errname(C.ret), dm, dl, Ls, o->slen, o->delta, r_lo, r_hi, wlo, whi, fits, exact, cleared);
         snprintf(what, sizeof what, "%s: %s (%s)", d->name, rule, obs);
-        witness_ovl(d, o, idx, obs); report("C07", key, what, g_wit);
+        witness_ovl(d, o, idx, obs); if (want("C07")) report("C07", key, what, g_wit);
+        /* a success that is not the exact copy is a C06 matter as well, wherever the operands lie */
+        if (success && fits && !exact && want("C06")) report("C06", key, what, g_wit);
     }
     if (g_verbose) { witness_ovl(d, o, idx, "verbose"); printf("%s zone=%s\n", g_wit, zone); }
     if (g_samples_emitted < 4 && (idx % 4099) == (long)(g_seed % 4099)) { witness_ovl(d, o, idx, zone); emit_sample(g_wit); g_samples_emitted++; }
